@@ -480,18 +480,19 @@ func (w *World) dispatcher(in *Inst) {
 			return
 		case n := <-in.notifyQ:
 			c := in.conn
+			dcb, rcb, ccb := connHandlers(c)
 			switch n {
 			case "disconnect":
-				if cb := c.Opts.DisconnectedCB; cb != nil {
-					cb(c)
+				if dcb != nil {
+					dcb(c)
 				}
 			case "reconnect":
-				if cb := c.Opts.ReconnectedCB; cb != nil {
-					cb(c)
+				if rcb != nil {
+					rcb(c)
 				}
 			case "closed":
-				if cb := c.Opts.ClosedCB; cb != nil {
-					cb(c)
+				if ccb != nil {
+					ccb(c)
 				}
 			}
 			w.evL(Ev{K: "notify.done", I: in.spec.ID, S: n})
